@@ -48,14 +48,14 @@ Qed.
 
 Lemma parse_bulk_c_spec : forall b r c, parse_bulk_str_c b = (r, c) ->
   c_alloc c = 0 /\ c_depth c = 0 /\ c_steps c <= 2 * (len b + 1) + 3 /\
-  (forall v n, r = COk v n -> (2 <= n <= length b)%nat /\ isize v = 1).
+  (forall v n, r = COk v n -> (2 <= n <= length b)%nat /\ isize v = 1 /\ c_steps c <= 2 * N.of_nat n + 3).
 Proof.
   intros b r c H. unfold parse_bulk_str_c in H. destruct (parse_len_c b) as [r1 c1] eqn:E1.
   destruct (parse_len_c_spec _ _ _ E1) as (A1 & D1 & S1 & K1). unfold cbind in H.
   destruct r1 as [z n| | | | |]; try (inversion H; subst; repeat split; try lia; intros; discriminate).
   destruct (K1 z n eq_refl) as (Kn & Ks). unfold len in *.
   destruct (Z.ltb z 0).
-  { inversion H; subst. cbn [cadd csteps c_alloc c_depth c_steps]. repeat split; try lia; inversion H0; subst; try lia. reflexivity. }
+  { inversion H; subst. cbn [cadd csteps c_alloc c_depth c_steps]. repeat split; try lia; inversion H0; subst; try lia; reflexivity. }
   destruct (N.leb USIZE_MOD _).
   { inversion H; subst. cbn [cadd csteps c_alloc c_depth c_steps]. repeat split; try lia; discriminate. }
   destruct (N.ltb (N.of_nat (length b)) _) eqn:E2.
@@ -64,6 +64,7 @@ Proof.
   - destruct (slice _ _ _); [|discriminate]. destruct (bytes_eqb _ _); inversion H0; subst. lia.
   - destruct (slice _ _ _); [|discriminate]. destruct (bytes_eqb _ _); inversion H0; subst. lia.
   - destruct (slice _ _ _); [|discriminate]. destruct (bytes_eqb _ _); inversion H0; subst. reflexivity.
+  - destruct (slice _ _ _); [|discriminate]. destruct (bytes_eqb _ _); inversion H0; subst. lia.
 Qed.
 
 (* ---------- the invariant carried through the recursion ---------- *)
@@ -74,6 +75,13 @@ Proof.
   f_equal. induction IH as [|x t Hx Ht IHt]; cbn [map fold_right]; [reflexivity|]. rewrite Hx, IHt. reflexivity.
 Qed.
 
+Fixpoint isizes (l : list iresp) : N := match l with [] => 0 | x :: t => isize x + isizes t end.
+
+Ltac fin :=
+  repeat split; intros; try discriminate;
+  repeat match goal with Hv : COk _ _ = COk _ _ |- _ => inversion Hv; clear Hv; subst end;
+  cbn [isizes]; try lia; try (cbn [isize]; lia); try nia.
+
 (* S: steps per byte, W: allocation per byte on failure, D: depth *)
 Definition prc_good (S W D : N) (prc : bytes -> cres iresp * cost) : Prop :=
   forall x r c, prc x = (r, c) ->
@@ -81,7 +89,6 @@ Definition prc_good (S W D : N) (prc : bytes -> cres iresp * cost) : Prop :=
     (forall v n, r = COk v n ->
        (1 <= n <= length x)%nat /\ c_alloc c + 32 <= 32 * N.of_nat n /\ c_steps c <= S * N.of_nat n /\ isize v <= N.of_nat n).
 
-Fixpoint isizes (l : list iresp) : N := match l with [] => 0 | x :: t => isize x + isizes t end.
 
 Lemma isize_arr : forall l, isize (IArr l) = 1 + isizes l.
 Proof.
@@ -99,26 +106,119 @@ Lemma parse_elems_c_spec : forall S W D prc, 32 <= W -> prc_good S W D prc ->
        n <= N.of_nat c' - N.of_nat c).
 Proof.
   intros S W D prc HW Hg. unfold len. induction k as [|k IH]; intros n b c r cost Hc H; cbn [parse_elems_c] in H.
-  - destruct (N.eqb n 0) eqn:En; inversion H; subst; cbn [czero c_alloc c_steps c_depth];
-      (repeat split; try lia; intros vs c' Hv; inversion Hv; subst; cbn [isizes]; lia).
+  - destruct (N.eqb n 0) eqn:En; inversion H; subst; cbn [czero c_alloc c_steps c_depth]; fin.
   - destruct (N.eqb n 0) eqn:En.
-    { inversion H; subst; cbn [czero c_alloc c_steps c_depth];
-        (repeat split; try lia; intros vs c' Hv; inversion Hv; subst; cbn [isizes]; lia). }
+    { inversion H; subst; cbn [czero c_alloc c_steps c_depth]; fin. }
     destruct (length b <? c)%nat eqn:El; [lia|].
     destruct (prc (skipn c b)) as [r1 c1] eqn:E1.
     destruct (Hg _ _ _ E1) as (A1 & S1 & D1 & K1). unfold len in A1, S1. rewrite skipn_length in A1, S1.
     unfold cbind in H at 1.
-    destruct r1 as [v ec| | | | |];
-      try (inversion H; subst; repeat split; try nia; intros; discriminate).
+    destruct r1 as [v ec| | | | |]; try (inversion H; subst; fin; fail).
     destruct (K1 v ec eq_refl) as (Kn & Ka & Ks & Ki). rewrite skipn_length in Kn.
     destruct (parse_elems_c prc k (n - 1) b (c + ec)) as [r2 c2] eqn:E2.
     assert (Hc2 : (c + ec <= length b)%nat) by lia.
     destruct (IH _ _ _ _ _ Hc2 E2) as (A2 & S2 & D2 & K2).
     unfold cbind in H.
     destruct r2 as [vs c'| | | | |];
-      try (inversion H; subst; cbn [cadd c_alloc c_steps c_depth]; repeat split; try nia; intros; discriminate).
+      try (inversion H; subst; cbn [cadd c_alloc c_steps c_depth]; fin; fail).
     destruct (K2 vs c' eq_refl) as (Kc & Ka2 & Ks2 & Ki2 & Kn2).
     inversion H; subst. cbn [cadd csteps c_alloc c_steps c_depth].
-    repeat split; try nia.
-    + intros vs0 c0 Hv. inversion Hv; subst. cbn [isizes]. rewrite isize_iadvance. repeat split; try nia.
+    fin; rewrite ?isize_iadvance; try nia.
+Qed.
+
+Lemma parse_array_c_spec : forall S W D prc, 8 <= S -> 32 <= W -> prc_good S W D prc ->
+  forall nb r c, parse_array_c prc nb = (r, c) ->
+    c_alloc c <= (W + 32) * len nb /\ c_steps c <= (S + 2) * len nb + S + 3 /\ c_depth c <= D /\
+    (forall v n, r = COk v n ->
+       (2 <= n <= length nb)%nat /\ c_alloc c + 32 <= 32 * N.of_nat n /\ c_steps c <= (S + 2) * N.of_nat n /\
+       isize v <= N.of_nat n).
+Proof.
+  intros S W D prc HS HW Hg nb r c H. unfold parse_array_c in H.
+  destruct (parse_len_c nb) as [r1 c1] eqn:E1.
+  destruct (parse_len_c_spec _ _ _ E1) as (A1 & D1 & S1 & K1). unfold cbind in H at 1. unfold len in *.
+  destruct r1 as [z n0| | | | |]; try (inversion H; subst; fin; fail).
+  destruct (K1 z n0 eq_refl) as (Kn & Ks).
+  destruct (Z.ltb z 0).
+  { inversion H; subst. cbn [cadd csteps c_alloc c_depth c_steps]. fin. }
+  destruct (N.ltb ISIZE_MAX _).
+  { inversion H; subst. cbn [cadd csteps c_alloc c_depth c_steps]. fin. }
+  unfold cbind in H at 1.
+  destruct (parse_elems_c prc (Datatypes.S (length nb)) (Z.to_N z) nb n0) as [r2 c2] eqn:E2.
+  assert (Hc : (n0 <= length nb)%nat) by lia.
+  destruct (parse_elems_c_spec S W D prc HW Hg _ _ _ _ _ _ Hc E2) as (A2 & S2 & D2 & K2). unfold len in *.
+  unfold cbind in H. unfold ELEM_SIZE in H.
+  destruct r2 as [vs c'| | | | |];
+    try (inversion H; subst; cbn [cadd czero c_alloc c_depth c_steps]; fin; fail).
+  destruct (K2 vs c' eq_refl) as (Kc & Ka2 & Ks2 & Ki2 & Kn2).
+  inversion H; subst. cbn [cadd czero c_alloc c_depth c_steps].
+  fin; rewrite ?isize_arr; try nia.
+Qed.
+
+Lemma parse_resp_c_good : forall rem,
+  prc_good (8 + 3 * N.of_nat rem) (32 * (N.of_nat rem + 1)) (N.of_nat rem + 1) (parse_resp_c rem).
+Proof.
+  induction rem as [|rem IH]; intros x r c H; (destruct x as [|p nb]; [cbn [parse_resp_c] in H; inversion H; subst; cbn; fin|]);
+    cbn [parse_resp_c] in H; unfold len; cbn [length].
+  - destruct (N.eqb p c_dollar).
+    { destruct (parse_bulk_str_c nb) as [r1 c1] eqn:E1. destruct (parse_bulk_c_spec _ _ _ E1) as (A1 & D1 & S1 & K1). unfold len in *.
+      unfold cbind in H. destruct r1 as [v n0| | | | |]; try (inversion H; subst; cbn [cdeeper c_alloc c_depth c_steps]; fin; fail).
+      destruct (K1 v n0 eq_refl) as (Kn & Ki & Ks). inversion H; subst. cbn [cdeeper cadd csteps c_alloc c_depth c_steps].
+      fin; rewrite ?isize_iadvance; try nia. }
+    destruct (N.eqb p c_plus).
+    { destruct (parse_line_c nb) as [r1 c1] eqn:E1. destruct (parse_line_c_spec _ _ _ E1) as (A1 & D1 & S1 & K1). unfold len in *.
+      unfold cbind in H. destruct r1 as [v n0| | | | |]; try (inversion H; subst; cbn [cdeeper c_alloc c_depth c_steps]; fin; fail).
+      destruct (K1 v n0 eq_refl) as (Kn & Ks & Kd). inversion H; subst. cbn [cdeeper cadd csteps c_alloc c_depth c_steps isize].
+      fin. }
+    destruct (N.eqb p c_colon).
+    { destruct (parse_line_c nb) as [r1 c1] eqn:E1. destruct (parse_line_c_spec _ _ _ E1) as (A1 & D1 & S1 & K1). unfold len in *.
+      unfold cbind in H. destruct r1 as [v n0| | | | |]; try (inversion H; subst; cbn [cdeeper c_alloc c_depth c_steps]; fin; fail).
+      destruct (K1 v n0 eq_refl) as (Kn & Ks & Kd). inversion H; subst. cbn [cdeeper cadd csteps c_alloc c_depth c_steps isize].
+      fin. }
+    destruct (N.eqb p c_minus).
+    { destruct (parse_line_c nb) as [r1 c1] eqn:E1. destruct (parse_line_c_spec _ _ _ E1) as (A1 & D1 & S1 & K1). unfold len in *.
+      unfold cbind in H. destruct r1 as [v n0| | | | |]; try (inversion H; subst; cbn [cdeeper c_alloc c_depth c_steps]; fin; fail).
+      destruct (K1 v n0 eq_refl) as (Kn & Ks & Kd). inversion H; subst. cbn [cdeeper cadd csteps c_alloc c_depth c_steps isize].
+      fin. }
+    destruct (N.eqb p c_star); inversion H; subst; cbn [cdeeper csteps c_alloc c_depth c_steps]; fin.
+  - destruct (N.eqb p c_dollar).
+    { destruct (parse_bulk_str_c nb) as [r1 c1] eqn:E1. destruct (parse_bulk_c_spec _ _ _ E1) as (A1 & D1 & S1 & K1). unfold len in *.
+      unfold cbind in H. destruct r1 as [v n0| | | | |]; try (inversion H; subst; cbn [cdeeper c_alloc c_depth c_steps]; fin; fail).
+      destruct (K1 v n0 eq_refl) as (Kn & Ki & Ks). inversion H; subst. cbn [cdeeper cadd csteps c_alloc c_depth c_steps].
+      fin; rewrite ?isize_iadvance; try nia. }
+    destruct (N.eqb p c_plus).
+    { destruct (parse_line_c nb) as [r1 c1] eqn:E1. destruct (parse_line_c_spec _ _ _ E1) as (A1 & D1 & S1 & K1). unfold len in *.
+      unfold cbind in H. destruct r1 as [v n0| | | | |]; try (inversion H; subst; cbn [cdeeper c_alloc c_depth c_steps]; fin; fail).
+      destruct (K1 v n0 eq_refl) as (Kn & Ks & Kd). inversion H; subst. cbn [cdeeper cadd csteps c_alloc c_depth c_steps isize].
+      fin. }
+    destruct (N.eqb p c_colon).
+    { destruct (parse_line_c nb) as [r1 c1] eqn:E1. destruct (parse_line_c_spec _ _ _ E1) as (A1 & D1 & S1 & K1). unfold len in *.
+      unfold cbind in H. destruct r1 as [v n0| | | | |]; try (inversion H; subst; cbn [cdeeper c_alloc c_depth c_steps]; fin; fail).
+      destruct (K1 v n0 eq_refl) as (Kn & Ks & Kd). inversion H; subst. cbn [cdeeper cadd csteps c_alloc c_depth c_steps isize].
+      fin. }
+    destruct (N.eqb p c_minus).
+    { destruct (parse_line_c nb) as [r1 c1] eqn:E1. destruct (parse_line_c_spec _ _ _ E1) as (A1 & D1 & S1 & K1). unfold len in *.
+      unfold cbind in H. destruct r1 as [v n0| | | | |]; try (inversion H; subst; cbn [cdeeper c_alloc c_depth c_steps]; fin; fail).
+      destruct (K1 v n0 eq_refl) as (Kn & Ks & Kd). inversion H; subst. cbn [cdeeper cadd csteps c_alloc c_depth c_steps isize].
+      fin. }
+    destruct (N.eqb p c_star); [|inversion H; subst; cbn [cdeeper csteps c_alloc c_depth c_steps]; fin].
+    destruct (parse_array_c (parse_resp_c rem) nb) as [r1 c1] eqn:E1.
+    assert (HS : 8 <= 8 + 3 * N.of_nat rem) by lia. assert (HW : 32 <= 32 * (N.of_nat rem + 1)) by lia.
+    destruct (parse_array_c_spec _ _ _ _ HS HW IH _ _ _ E1) as (A1 & S1 & D1 & K1). unfold len in *.
+    unfold cbind in H. destruct r1 as [v n0| | | | |]; try (inversion H; subst; cbn [cdeeper c_alloc c_depth c_steps]; fin; fail).
+    destruct (K1 v n0 eq_refl) as (Kn & Ka & Ks & Ki). inversion H; subst. cbn [cdeeper cadd csteps c_alloc c_depth c_steps].
+    fin; rewrite ?isize_iadvance; try nia.
+Qed.
+
+(* ---------- the decode call ---------- *)
+
+Lemma decode_cost_bounds : forall b,
+  let c := snd (decode_cost b) in
+  c_alloc c <= 4128 * len b + 40 /\ c_steps c <= 392 * len b + 393 /\ c_depth c <= 129 /\
+  (forall v n, fst (decode_cost b) = COk v n -> c_alloc c <= 32 * N.of_nat n + 8 /\ c_steps c <= 392 * N.of_nat n + 1).
+Proof.
+  intros b. unfold decode_cost. destruct (parse_resp_c MAX_ARRAY_NESTING b) as [r1 c1] eqn:E1.
+  destruct (parse_resp_c_good _ _ _ _ E1) as (A1 & S1 & D1 & K1). unfold MAX_ARRAY_NESTING in *. unfold len in *.
+  unfold cbind. destruct r1 as [v n0| | | | |]; cbn [fst snd]; try (fin; fail).
+  destruct (K1 v n0 eq_refl) as (Kn & Ka & Ks & Ki).
+  destruct (length b <? n0)%nat eqn:El; [lia|]. cbn [fst snd cadd c_alloc c_steps c_depth]. unfold SHARED_SIZE. fin.
 Qed.
